@@ -65,3 +65,25 @@ package xrand
 //@   ensures C09: s.closes == 1
 //@   ensures result1 != nil ==> result0 == nil && result1 == s.lasterr
 //@   ensures result1 == nil ==> len(result0) <= k && s.pos == s.n
+
+// ---- the slice / int / iterator samplers: never out of bounds, the documented result length ----
+
+//@ func rSampleSlice
+//@   props C19
+//@   requires k >= 0 && len(a) < 9223372036854775807
+//@   loop 0: invariant len(out) == k && fresh(out) && samp.k == k && samp.i >= 0
+//@   ensures len(result) == min(k, len(a)) && (forall t int {a[t]} :: 0 <= t && t < len(a) ==> a[t] == old(a[t]))
+
+//@ func rSample
+//@   props C19
+//@   requires k >= 0 && 0 <= n && n < 9223372036854775807
+//@   loop 0: invariant len(out) == k && fresh(out) && samp.k == k && samp.i >= 0
+//@   ensures len(result) == min(k, n)
+
+//@ func rSampleIterator
+//@   props C19
+//@   requires itInv(iter) && k >= 0 && iter.n < 9223372036854775807
+//@   modifies iter.pos, iter.pulls
+//@   loop 0: invariant itInv(iter) && len(out) == k && fresh(out) && samp.k == k && 0 <= i && i <= iter.pos
+//@   loop 1: invariant itInv(iter) && len(out) == k && fresh(out) && samp.k == k && 0 <= replace && (replace < k || k == 0) && 0 <= i && i <= iter.pos && (k == 0 ==> next == 9223372036854775807)
+//@   ensures len(result) <= k && iter.pos == iter.n
